@@ -68,6 +68,10 @@ CLAIMED = {
     text="RelayRulesRouter.getDestinations (nested loops, ghost source-index witnesses) is verified from source to yield exactly the configured destinations of the matching rules, in file order, up to and including the first matching rule not marked continue; loadRelayRules is verified with an ordered-filter invariant (pattern rules in file order built from their own section, exactly one default rule last, the documented configuration errors otherwise); AggregatedConsistentHashingRouter.getDestinations is verified to return exactly the union of the hash destinations of the aggregate names (or of the metric itself when no rule applies), from which co-location is a lemma.",
     note="rule.matches / get_aggregate_metric are uninterpreted functions of (rule, key) (regex semantics not modelled); hash_router.getDestinations is an uninterpreted function of the name (C05 determinism); A-CONF for the parser; parseDestinations and regex compilation are opaque functions of the section text; A-ENGINE, A-SMT",
     tech=TECH + "; nested loop invariants with ghost witnesses, ordered-filter invariant"),
+  'C17': dict(
+    text="store / pop / drain_metric are verified exception-free under the other thread's rely for every strategy interface; the three generator strategies (naive, sorted, timesorted) are verified as coroutines with loop invariants (remaining snapshot duplicate-free, still cached, not yet handed out in this pass; a new snapshot only when the previous one is exhausted; timesorted: only metrics older than the lag); max returns a metric of maximal count, random a cached metric; MetricCache() selects the configured class; I_nonempty gives non-empty batches; under bucketmax I_bucket is a lock-invariant conjunct proved at every lock release of drain_metric (this exposed D4, fixed) and store/choose_item are exception-free and maximal under it.",
+    note="rely/guarantee + coroutine reading of generators (environment acts at each yield); counts / watermarks through assumed contracts; preservation of I_bucket by BucketMaxStrategy.store / choose_item is decided only by an exhaustive bounded stand-in (both solvers time out), labelled bounded; the 'repeated draining empties the cache' clause is a meta-step over the contracts; A-GIL, A-THREADS, A-CLOCK; A-ENGINE, A-SMT",
+    tech=TECH + "; lock invariants, rely/guarantee, generators as coroutines with loop invariants"),
   'C18': dict(
     text="TaggedSeries.format is verified from source to be a function of the tag map (two iteration orders of the same map give the same text, because the rendered list goes through sorted()), path is format of the tags, validateTagAndValue rejects exactly the documented violations, and both processors hand on parse(name).path when the parser accepts a name and the received name unchanged when it rejects it. Idempotence, order independence at the parse level and agreement of the two syntaxes are decided only by a structured exhaustive bounded stand-in on the real parser; it reports one known finding (names that look like OpenMetrics).",
     note="A-LIB (sorted is a function of the multiset); the parser (split / slicing / re.match chains) is outside the solvers' reach: bounded, labelled bounded, not counted as proved; known finding D11 recorded with its witness; A-ENGINE, A-SMT",
